@@ -42,6 +42,16 @@ Theorem C05_gae_inner_successor : forall rs vs es lastv d t r v v' e e',
 Proof. exact mk_col_inner. Qed.
 Print Assumptions C05_gae_inner_successor.
 
+(* the column consumed by the loop carries, at every position, what the index-based branch
+   `if step == buffer_size - 1` of the code selects *)
+Theorem C05_column_matches_branch : forall rs vs es lastv d t,
+  length rs = length vs -> length vs = length es -> t < length rs ->
+  exists s, nth_error (mk_col rs vs es lastv d) t = Some s /\
+    s_r s = nth t rs 0%Q /\ s_v s = nth t vs 0%Q /\
+    (s_nnt s, s_nv s) = next_spec (Z.of_nat t) (Z.of_nat (length rs)) d lastv (nth (S t) es 0%Q) (nth (S t) vs 0%Q).
+Proof. exact mk_col_matches_next_spec. Qed.
+Print Assumptions C05_column_matches_branch.
+
 Theorem C05_next_fragment : forall step bs d lv es vn,
   Qeq (fst (gae_next step bs d lv es vn)) (fst (next_spec step bs d lv es vn)) /\
   Qeq (snd (gae_next step bs d lv es vn)) (snd (next_spec step bs d lv es vn)).
@@ -97,6 +107,15 @@ Theorem C05_flatten_index : forall (d : Q) n (rows : list (list Q)) e t,
   nth (e * length rows + t) (flatten d n rows) d = nth e (nth t rows []) d.
 Proof. exact (@flatten_index Q). Qed.
 Print Assumptions C05_flatten_index.
+
+(* observation, action, value, log-probability, advantage and return of a sample all come from
+   the same (step, env): every field goes through the same flatten + index *)
+Theorem C05_fields_aligned : forall (d : Q) n T (fields : list (list (list Q))) e t,
+  Forall (fun rows => length rows = T) fields -> t < T -> e < n ->
+  map (fun rows => nth (e * T + t) (flatten d n rows) d) fields =
+  map (fun rows => nth e (nth t rows []) d) fields.
+Proof. exact (@fields_aligned Q). Qed.
+Print Assumptions C05_fields_aligned.
 
 Theorem C05_unflat_flat : forall T e t, t < T -> unflat T (e * T + t) = (t, e).
 Proof. exact unflat_flat. Qed.
